@@ -241,11 +241,63 @@ func checkC13(c *Ctx, r *Report) {
 	{
 		var ss []string
 		viol := ""
+		type ambCall struct {
+			cl   ssa.CallInstruction
+			name string
+		}
+		var calls []ambCall
 		for _, cl := range w.callersOf(ambient) {
+			calls = append(calls, ambCall{cl, calleeName(cl)})
+		}
+		// an ambient function handed over as a value (an injected clock): the calls of that
+		// parameter in the receiving function are calls of it; any other use of the value is not followed
+		for _, fn := range w.SSAFuncs {
+			for _, b := range fn.Blocks {
+				for _, ins := range b.Instrs {
+					for ai, op := range ins.Operands(nil) {
+						f, ok := (*op).(*ssa.Function)
+						if !ok || !ambient(fnShort(f)) {
+							continue
+						}
+						cl, isCall := ins.(ssa.CallInstruction)
+						if isCall && cl.Common().Value == ssa.Value(f) {
+							continue // an ordinary call (listed above)
+						}
+						followed := false
+						if isCall {
+							if callee := cl.Common().StaticCallee(); callee != nil && callee.Blocks != nil {
+								for i, a := range cl.Common().Args {
+									if a != ssa.Value(f) || i >= len(callee.Params) {
+										continue
+									}
+									followed = true
+									prm := callee.Params[i]
+									if refs := prm.Referrers(); refs != nil {
+										for _, rf := range *refs {
+											if dc, ok := rf.(ssa.CallInstruction); ok && dc.Common().Value == ssa.Value(prm) {
+												calls = append(calls, ambCall{dc, fnShort(f)})
+											} else {
+												viol = fmt.Sprintf("%s: the ambient function %s, handed to %s as a value, is passed on or stored there: where it is consulted is not followed", w.pos(rf.Pos()), fnShort(f), fnShort(callee))
+											}
+										}
+									}
+								}
+							}
+						}
+						_ = ai
+						if !followed {
+							ss = append(ss, w.pos(ins.Pos()))
+							viol = fmt.Sprintf("%s: the ambient function %s is used as a value in %s (stored, returned or passed to code that is not analysed): where it is consulted is not followed", w.pos(ins.Pos()), fnShort(f), fnShort(fn))
+						}
+					}
+				}
+			}
+		}
+		for _, ac := range calls {
+			cl, name := ac.cl, ac.name
 			fn := fnShort(cl.Parent())
 			p := w.pos(cl.Pos())
 			ss = append(ss, p)
-			name := calleeName(cl)
 			switch {
 			case name == "time.Now" && fn == "generator/routes.GetTemplateContext":
 				// must be guarded by !SkipGenerateDateComment
